@@ -6,6 +6,7 @@
     `exists tables, state: not (zS xor zR)` over the two exports.
 (c) trivial_winning_set against the composition of the two references.
 """
+import os
 import itertools
 import time
 
@@ -17,7 +18,7 @@ FILES = ['omega/games/gr1.py', 'omega/symbolic/fixpoint.py']
 FUNCS = ['gr1.solve_rabin_game', 'gr1._cycle_inside', 'gr1._attractor_inside', 'fixpoint.step',
          'gr1.solve_streett_game', 'gr1.trivial_winning_set']
 MODES = c01.MODES
-SOLVER_MS = 900000
+SOLVER_MS = 900000 * int(os.environ.get('VERIF_Z3_SCALE', '1'))
 
 
 def make_dual(aut):
@@ -211,18 +212,18 @@ def run(tier, seed, t0, only=None):
                 tasks.append(dict(mod='vlib.props.c01', fn='family_region',
                                   kw=dict(shape=shape, moore=moore, plus_one=plus_one, objective='rabin',
                                           state_idx=None if part is None else [part]),
-                                  backend=be, timeout=6000,
+                                  backend=be, timeout=12000,
                                   name=f'{be}:rabin:{shape}:moore={moore}:plus_one={plus_one}'
                                        + ('' if part is None else f':state{part}')))
     dshapes = ['B11a', 'S11', 'S11h2', 'S11g2', 'B02', 'T11b'] if tier == 'quick' else ['B11a', 'B11b', 'S11', 'S11h2', 'S11g2', 'B02', 'T11b', 'T11']
     for shape in dshapes:
         for moore, plus_one in MODES:
             tasks.append(dict(mod='vlib.props.c04', fn='duality', kw=dict(shape=shape, moore=moore, plus_one=plus_one),
-                              timeout=6000, name=f'cudd:duality:{shape}:moore={moore}:plus_one={plus_one}'))
+                              timeout=12000, name=f'cudd:duality:{shape}:moore={moore}:plus_one={plus_one}'))
     for shape in (['S11'] if tier == 'quick' else ['S11', 'B11a', 'S11h2']):
         for moore, plus_one in MODES:
             tasks.append(dict(mod='vlib.props.c04', fn='trivial_set', kw=dict(shape=shape, moore=moore, plus_one=plus_one),
-                              timeout=6000, name=f'cudd:trivial:{shape}:moore={moore}:plus_one={plus_one}'))
+                              timeout=12000, name=f'cudd:trivial:{shape}:moore={moore}:plus_one={plus_one}'))
     nmem = 48 if tier == 'quick' else 600
     for shape in ('S11g2', 'S11g3', 'S11g2h2', 'B11a'):
         for moore, plus_one in MODES:
